@@ -1,11 +1,13 @@
 //! C09: Generation::serial_next / par_next with an instrumented child maker.
 //! input = [mode, population, fail_at]   mode 0 = serial_next, T > 0 = par_next in a rayon pool of T threads
+//!   mode 500 + T: ISLANDS, two Generation values stepping at the same time (see run_island)
 //!   mode 400 + T: BULK step, population = [n] (see run_bulk)
 //!   mode 100 + T: the same with scored individuals and a child maker built through GenomeScorer (probe genome maker + scorer)
 //!      or [mode, population, fail_at, [[mode, fail_at]...]]: further steps of the SAME Generation value
 //!         (observation then has a 4th element: the list of [result, population afterwards, log] of those steps)
 //! observation = [[0] | [1, error], population afterwards,
-//!                [[saw the generation's own population (address), saw the old contents, word1, word2, 0|1, child|error]...]]
+//!                [[saw the generation's own population (address), saw the old contents, word1, word2, 0|1, child|error
+//!                  (, tail of a 15-byte bulk draw - populations of at most 64)]...]]
 use std::sync::atomic::{AtomicI64, AtomicUsize, Ordering};
 use std::sync::{Arc, Mutex};
 
@@ -38,17 +40,33 @@ impl<'p> Operator<&'p Vec<i64>> for Probe {
     fn apply<R: rand::Rng + ?Sized>(&self, pop: &'p Vec<i64>, rng: &mut R) -> Result<i64, CmErr> {
         let k = self.calls.fetch_add(1, Ordering::SeqCst);
         let (w1, w2) = (rng.next_u64(), rng.next_u64());
+        let w3 = tail_draw(rng);
         let addr_ok = std::ptr::eq(pop, self.addr.load(Ordering::SeqCst) as *const Vec<i64>);
         let same = *pop == *self.old.lock().unwrap();
         let child = (w1 >> 2) as i64;
         let failed = k == self.fail_at.load(Ordering::SeqCst);
-        self.log.lock().unwrap().push(tl![ab(addr_ok), ab(same), a(w1), a(w2), ab(failed), a(if failed { k } else { child })]);
+        let mut entry = vec![ab(addr_ok), ab(same), a(w1), a(w2), ab(failed), a(if failed { k } else { child })];
+        if pop.len() <= 64 {
+            entry.push(a(w3));
+        }
+        self.log.lock().unwrap().push(L(entry));
         if failed {
             Err(CmErr(k))
         } else {
             Ok(child)
         }
     }
+}
+
+/// a BULK draw whose length is not a multiple of the word size: the 7 bytes after the first word of a 15-byte fill, as a
+/// number (a generator adapter that fills whole words only leaves them unwritten - the same in every child); reported
+/// for populations of at most 64, where 56 bits are enough for "pairwise distinct" to be beyond doubt
+fn tail_draw<R: rand::Rng + ?Sized>(rng: &mut R) -> u64 {
+    let mut buf = [0u8; 15];
+    rng.fill_bytes(&mut buf);
+    let mut t = [0u8; 8];
+    t[..7].copy_from_slice(&buf[8..15]);
+    u64::from_le_bytes(t)
 }
 
 type Ind = EcIndividual<i64, TestResults<Score<i64>>>;
@@ -66,12 +84,17 @@ impl<'p> Operator<&'p Vec<Ind>> for GProbe {
         let p = &self.0;
         let k = p.calls.fetch_add(1, Ordering::SeqCst);
         let (w1, w2) = (rng.next_u64(), rng.next_u64());
+        let w3 = tail_draw(rng);
         let addr_ok = std::ptr::eq(pop, p.addr.load(Ordering::SeqCst) as *const Vec<Ind>);
         let same = pop.iter().map(|i| i.genome).collect::<Vec<i64>>() == *p.old.lock().unwrap()
             && pop.iter().all(|i| i.test_results == score_of(&i.genome));
         let child = (w1 >> 2) as i64;
         let failed = k == p.fail_at.load(Ordering::SeqCst);
-        p.log.lock().unwrap().push(tl![ab(addr_ok), ab(same), a(w1), a(w2), ab(failed), a(if failed { k } else { child })]);
+        let mut entry = vec![ab(addr_ok), ab(same), a(w1), a(w2), ab(failed), a(if failed { k } else { child })];
+        if pop.len() <= 64 {
+            entry.push(a(w3));
+        }
+        p.log.lock().unwrap().push(L(entry));
         if failed {
             Err(CmErr(k))
         } else {
@@ -194,6 +217,86 @@ fn run_bulk(threads: usize, n: usize, fail_at: i64) -> Option<Tree> {
     ])
 }
 
+/// ISLANDS (mode 500 + T): TWO Generation values step in parallel at the same time, each in its own pool of T threads; one
+/// of them (A) fails at call `fail_at`, the other (B, observed) never fails - whatever A does, B's step must be a complete,
+/// successful step of B (nothing a step uses may be shared between Generation values).  When A fails at call 5, B's child
+/// maker also yields to its pool in the middle of every child (other children then run nested on the same thread).
+#[derive(Clone)]
+struct IProbe(Probe, u64, Arc<Mutex<Vec<u64>>>, bool);
+impl Composable for IProbe {}
+impl<'p> Operator<&'p Vec<i64>> for IProbe {
+    type Output = i64;
+    type Error = CmErr;
+    fn apply<R: rand::Rng + ?Sized>(&self, pop: &'p Vec<i64>, rng: &mut R) -> Result<i64, CmErr> {
+        std::thread::sleep(std::time::Duration::from_micros(self.1));
+        let (w1, w2) = (rng.next_u64(), rng.next_u64());
+        // let the pool run other pending children ON THIS THREAD, in the middle of this one: the words this child drew
+        // before and draws after the interruption must still be its own
+        if self.3 {
+            let _ = rayon::yield_now();
+        }
+        let r = self.0.apply(pop, rng);
+        self.2.lock().unwrap().extend([w1, w2]);
+        r
+    }
+}
+fn run_island(threads: usize, pop: Vec<i64>, fail_at: i64) -> Option<Tree> {
+    let mk = |fail: i64| Probe {
+        log: Arc::new(Mutex::new(vec![])),
+        calls: Arc::new(AtomicI64::new(0)),
+        fail_at: Arc::new(AtomicI64::new(fail)),
+        old: Arc::new(Mutex::new(pop.clone())),
+        addr: Arc::new(AtomicUsize::new(0)),
+    };
+    let (pa, pb) = (mk(fail_at), mk(-1));
+    let early: Arc<Mutex<Vec<u64>>> = Arc::new(Mutex::new(vec![]));
+    let mut ga = Generation::new(IProbe(pa.clone(), 400, Arc::new(Mutex::new(vec![])), false), pop.clone());
+    let mut gb = Generation::new(IProbe(pb.clone(), 200, early.clone(), fail_at == 5), pop.clone());
+    pa.addr.store(ga.population() as *const Vec<i64> as usize, Ordering::SeqCst);
+    pb.addr.store(gb.population() as *const Vec<i64> as usize, Ordering::SeqCst);
+    let pool_a = rayon::ThreadPoolBuilder::new().num_threads(threads).build().ok()?;
+    let pool_b = rayon::ThreadPoolBuilder::new().num_threads(threads).build().ok()?;
+    let rb = std::thread::scope(|sc| {
+        let ha = sc.spawn(|| pool_a.install(|| ga.par_next()));
+        let hb = sc.spawn(|| pool_b.install(|| gb.par_next()));
+        let _ = ha.join();
+        hb.join()
+    });
+    let rb = match rb {
+        Ok(r) => r,
+        Err(p) => std::panic::resume_unwind(p),
+    };
+    let res = match rb {
+        Ok(()) => tl![A(0)],
+        Err(e) => tl![A(1), a(e.0)],
+    };
+    let after: Vec<Tree> = gb.population().iter().map(|x| a(*x)).collect();
+    let mut log = pb.log.lock().unwrap().clone();
+    // the words drawn BEFORE the interruption must be distinct from each other and from all the words in the log; when
+    // they are not, the first logged word is replaced by a copy of the second (so that the judge sees words repeat)
+    let mut all: Vec<u64> = early.lock().unwrap().clone();
+    for e in &log {
+        if let L(v) = e {
+            for k in [2usize, 3] {
+                if let Some(A(w)) = v.get(k) {
+                    all.push(*w as u64);
+                }
+            }
+        }
+    }
+    let n = all.len();
+    all.sort_unstable();
+    all.dedup();
+    if all.len() != n {
+        if let Some(L(v)) = log.first_mut() {
+            if v.len() > 3 {
+                v[2] = v[3].clone();
+            }
+        }
+    }
+    Some(tl![res, L(after), L(log)])
+}
+
 /// populations of other collection types: sets (duplicate children collapse, so the size changes from step to step)
 /// and double-ended queues
 trait PopView: Send + Sync {
@@ -291,6 +394,9 @@ fn run(input: &Tree) -> Option<Tree> {
             }
             steps.push((st.first()?.usize()?, st.get(1)?.i64()?));
         }
+    }
+    if l.len() == 3 && (501..=564).contains(&steps[0].0) {
+        return run_island(steps[0].0 - 500, pop, steps[0].1);
     }
     if l.len() == 3 && (400..=464).contains(&steps[0].0) {
         // bulk: the population is given by its size alone
@@ -426,6 +532,17 @@ fn gen(tier: &str, rng: &mut Sm) -> Gen {
             g.inputs.push(tl![b(4), L(pop.clone()), A(-1), L(vec![tl![b(4), A(-1)], tl![b(0), A(-1)], tl![b(2), A(1)], tl![b(2), A(-1)]])]);
         }
     }
+    // ISLANDS: two Generation values stepping in parallel at the same time, one of them failing early
+    for size in [24usize, 64] {
+        let pop: Vec<Tree> = (0..size as i64).map(|i| a(i * 7 - 3)).collect();
+        for t in [2usize, 4] {
+            for f in [0i64, 1, 5] {
+                for _ in 0..(if tier == "thorough" { 6 } else { 1 }) {
+                    g.inputs.push(tl![au(500 + t), L(pop.clone()), a(f)]);
+                }
+            }
+        }
+    }
     // BULK: enough children in ONE step (400 000, each drawing 128 bits) for the birthday bound to expose a child maker
     // whose children are handed randomness from a small seed space (2^32 seeds collide ~18 times here; honest 128-bit
     // draws collide with probability < 2^-90); reduced to counts by the harness; also atomicity at that size
@@ -433,6 +550,6 @@ fn gen(tier: &str, rng: &mut Sm) -> Gen {
     for (mode, n, f) in [(400usize, big, -1i64), (408, big, -1), (400, 50_000, 31_337), (416, 50_000, 49_999), (403, 0, -1), (400, 1, 0)] {
         g.inputs.push(tl![au(mode), tl![a(n)], a(f)]);
     }
-    g.meta("generator", format!("population sizes 0, 1, 2, 7, 64 (and 3000 under pools of 8 and 16 threads); serial_next and par_next under rayon pools of 1, 2, 3, 4, 8, 16 threads x {reps} repetitions; failure injected at every call position (sampled for size 64) and none; a child maker built through GenomeScorer with a one-off failing genome maker; histories of 5 steps of one Generation value (failing steps followed by successful ones, serial and parallel mixed); BTreeSet populations whose children collide (the size changes between steps) and VecDeque populations; bulk steps of 400 000 (and 50 000 with an injected failure) scored individuals through GenomeScorer, serial and under pools of 8 / 16 threads, reduced to counts (calls, distinct 128-bit draws, children, population as expected)"));
+    g.meta("generator", format!("population sizes 0, 1, 2, 7, 64 (and 3000 under pools of 8 and 16 threads); serial_next and par_next under rayon pools of 1, 2, 3, 4, 8, 16 threads x {reps} repetitions; failure injected at every call position (sampled for size 64) and none; a child maker built through GenomeScorer with a one-off failing genome maker; histories of 5 steps of one Generation value (failing steps followed by successful ones, serial and parallel mixed); BTreeSet populations whose children collide (the size changes between steps) and VecDeque populations; islands (two Generation values stepping in parallel at the same time, one failing early, the other observed); bulk steps of 400 000 (and 50 000 with an injected failure) scored individuals through GenomeScorer, serial and under pools of 8 / 16 threads, reduced to counts (calls, distinct 128-bit draws, children, population as expected)"));
     g
 }
